@@ -1,5 +1,66 @@
 import SmtpV.Model.Client
 import SmtpV.Spec.ClientMon
-/-! # C16 (theorems follow) -/
+import SmtpV.Proofs.DotWriterRT
+import SmtpV.Props.C01
+/-!
+# C16 — a message written through the client arrives intact at a go-smtp backend
+
+Model level: the client's dot-writer (`net/textproto.dotWriter` as used by `Client.Data`) composed
+with the server's DATA reader.  The tie of both models to the code is the `cconv`, `dr` and `conv`
+correspondence probes; the `e2e` probe checks the composition on the implementation itself.
+-/
 namespace SmtpV.Props.C16
+open SmtpV SmtpV.Spec SmtpV.DotWriter SmtpV.DataReader SmtpV.Client
+
+/-- **C16_partition_independent.**  The octets put on the wire depend only on the concatenation of the
+    `Write` calls, not on how the body was partitioned. -/
+theorem C16_partition_independent (parts : List Bytes) : writeAll parts = writeAll [parts.flatten] := by
+  rw [writeAll_flatten, writeAll_flatten]; simp
+
+/-- **C16_wire_terminated.**  For every body in which CR occurs only as part of CRLF, in any partition,
+    what the client writes is a terminated DATA stream whose content is the body with bare LF
+    normalised to CRLF and a final CRLF ensured; whatever follows (`rest`) stays behind the marker. -/
+theorem C16_wire_terminated (parts : List Bytes) (rest : Bytes) (h : ClientMon.crOk parts.flatten = true) :
+    Terminated (writeAll parts ++ rest) (ClientMon.normBody parts.flatten) rest :=
+  writeAll_terminated parts rest h
+
+/-- **C16_roundtrip.**  Writer and reader composed: whatever read sizes the backend uses, once its reader
+    reports EOF it has received exactly the normalised body — dot lines intact, nothing cut at look-alikes —
+    and the command stream resumes at `rest`. -/
+theorem C16_roundtrip (parts : List Bytes) (rest : Bytes) (h : ClientMon.crOk parts.flatten = true)
+    (sizes : List Nat) (x : Bytes × Res)
+    (hl : (readSched {} (writeAll parts ++ rest) sizes).1.getLast? = some x) (he : x.2 = .eof) :
+    outs (readSched {} (writeAll parts ++ rest) sizes).1 = ClientMon.normBody parts.flatten ∧
+    (readSched {} (writeAll parts ++ rest) sizes).2.2 = rest :=
+  (SmtpV.Props.C01.C01_exact _ _ _ (C16_wire_terminated parts rest h) sizes).2.2.1 x hl he
+
+/-- the backend does get there: with positive read sizes and enough reads the reader reaches EOF -/
+theorem C16_roundtrip_progress (parts : List Bytes) (rest : Bytes) (h : ClientMon.crOk parts.flatten = true)
+    (sizes : List Nat) (hpos : ∀ k ∈ sizes, 0 < k) (hlen : (ClientMon.normBody parts.flatten).length < sizes.length) :
+    ∃ x, (readSched {} (writeAll parts ++ rest) sizes).1.getLast? = some x ∧ x.2 = .eof :=
+  (SmtpV.Props.C01.C01_exact _ _ _ (C16_wire_terminated parts rest h) sizes).2.2.2 hpos hlen
+
+/-- **C16_second_close.**  `Close` on a writer whose `Close` has been called is a local error: nothing is
+    written and no reply is consumed (the connection state is what it was). -/
+theorem C16_second_close (c : C) (k : Nat) (d : DW) (hk : c.dws[k]? = some d) (hc : d.closed = true) :
+    (c.call (.close (some k))).2.res = "err" ∧ (c.call (.close (some k))).2.written = c.carry ∧
+    (c.call (.close (some k))).1.peer = c.peer := by
+  have h : c.call (.close (some k)) =
+      ({ c with out := c.carry, carry := [] }, { written := c.carry, res := "err", extra := [] }) := by
+    unfold C.call
+    simp only [Option.getD_some, hk, hc, if_true, showErr]
+  rw [h]; exact ⟨rfl, rfl, rfl⟩
+
+/-! ### non-vacuity -/
+
+example : ClientMon.crOk ".a\n.\r\nMAIL FROM:<bait@x>\r\n.".b = true := by decide +kernel
+
+example : writeAll [".a\n.".b, "\r\nx".b] = "..a\r\n..\r\nx\r\n.\r\n".b := by decide +kernel
+
+example : ClientMon.normBody ".a\n.\r\nx".b = ".a\r\n.\r\nx\r\n".b := by decide +kernel
+
+/-- outside the domain the law really fails (a lone CR): the hypothesis is not decoration -/
+example : (terminated? (writeAll ["a\r\r\nb".b])).map (·.1) = some "a\r\r\r\nb\r\n".b ∧
+    ClientMon.normBody "a\r\r\nb".b = "a\r\r\nb\r\n".b ∧ ClientMon.crOk "a\r\r\nb".b = false := by decide +kernel
+
 end SmtpV.Props.C16
